@@ -110,6 +110,7 @@ uint32_t vf_nondet_u32(void){ uint32_t x=nondet_uint(); return x; }
 uint64_t vf_nondet_u64(void){ uint64_t x=nondet_ulong(); return x; }
 void vf_havoc(char* p, uint64_t n){ for(uint64_t i=0;i<n;i++){ uint8_t x=nondet_uchar(); p[i]=(char)x; } }
 void vf_end(void){ __CPROVER_assume(0); }
+void vf_scribble_stack(uint8_t pattern){ }   /* solver side: uninitialised automatic storage is arbitrary anyway */
 uint64_t __vf_undef(void){ uint64_t x=nondet_ulong(); return x; }
 void __vf_str_empty(char* sret){ *(char**)sret=sret+16; *(uint64_t*)(sret+8)=0; sret[16]=0; }
 
